@@ -13,7 +13,7 @@ one() {
   if ! (cd "$ws" && git apply --whitespace=nowarn "$d/patch.diff" 2>/dev/null); then echo "PATCH DOES NOT APPLY" > "$out/$name.txt"; rm -rf "$ws"; return; fi
   : > "$out/$name.txt"
   for i in $(seq -w 1 20); do
-    timeout 600 /verif/bin/sqljsonlint -prop C$i -repo "$ws" -verif /tmp/vtmp 2>&1 | grep -E '^VIOLATION rule' | sed "s/^/C$i /" | cut -c1-330 >> "$out/$name.txt"
+    timeout 600 /verif/bin/sqljsonlint -prop C$i -repo "$ws" -verif /tmp/vtmp 2>&1 | grep -E '^(VIOLATION rule|UNDECIDED|ANALYSIS-FAILED|panic|goroutine )' | sed "s/^/C$i /" | cut -c1-330 >> "$out/$name.txt"
   done
   rm -rf "$ws"
   echo "rechecked $name"
